@@ -134,28 +134,11 @@ def File.tempoMapFor (f : File) (t : List Event) : List (Nat × Nat) :=
   if f.format = 1 then tempoMap (f.tracks.headD []) else tempoMap t
 
 /-- what the file encodes: per track the stretches of constant tempo up to its end; the length is the largest of
-Σ ticks / division · tempo / 10^6 (`Smf.Info.render` writes that down with mutagen's operand order) -/
+Σ ticks / division · tempo / 10^6 (`Smf.Info.render` writes that down with mutagen's operand order).  Set-tempo events
+behind the end of a track give empty stretches; in format 1 set-tempo events in tracks other than the first are not
+part of the tempo map. -/
 def File.expected (f : File) : Smf.Info :=
   { tickdiv := f.division, tracks := f.tracks.map fun t => segments (endTick t) (f.tempoMapFor t) }
-
-/-! ### where mutagen's way of adding up agrees with the specification
-
-`_read_midi_length` adds up only the delta-times of the channel messages, sorts them together with the tempo events by
-`(tick, kind, value)` and charges every delta-time to the tempo in force at the END of its interval.  That gives the
-length above when nothing but channel messages carries a delta-time, the tempo is set before time starts running (all
-set-tempo events of the governing track at tick 0, in ascending order of their values — the sort puts them in that order,
-the specification lets the last one win), and, for format 1, the tempo map is in the first track if anywhere
-(mutagen takes the first non-empty one). -/
-
-def Body.isMidi : Body → Bool
-  | .midi _ _ _ _ => true
-  | _ => false
-
-def File.Aligned (f : File) : Prop :=
-  (∀ t ∈ f.tracks, ∀ e ∈ t, e.body.isMidi = false → e.delta = 0) ∧
-  (∀ p ∈ tempoMap (f.tracks.headD []), p.1 = 0) ∧
-  ((tempoMap (f.tracks.headD [])).map (·.2)).Pairwise (· ≤ ·) ∧
-  (f.format = 1 → tempoMap (f.tracks.headD []) = [] → ∀ t ∈ f.tracks, tempoMap t = [])
 
 /-! ### decidability (driver, examples) -/
 
@@ -175,6 +158,5 @@ instance decEventsOK : (prev : Option Nat) → (evs : List Event) → Decidable 
     infer_instance
 
 instance (f : File) : Decidable f.OK := by unfold File.OK; infer_instance
-instance (f : File) : Decidable f.Aligned := by unfold File.Aligned; infer_instance
 
 end Mutagen.Spec.Smf
